@@ -272,6 +272,19 @@ def check_command(t: E.Tally, cmd, active: str | None, label: str) -> None:
             if not fsm.res or fsm.res[0][0] != "pkt" or fsm.res[0][1].strip() != reply.strip():
                 t.bad(f"C06:reply-not-recognised:{code}", f"command {frame!r}: proper reply {reply!r} -> {fsm.state()} {fsm.res}", rep)
                 break
+        # --- the proper reply overtaking the echo (both orders are 'the proper reply from the addressed device')
+        fsm.close()
+        fsm = Fsm(active)
+        fsm.send(cmd)
+        reply = f"{rverb} --- {dst} {gw} --:------ {code} {len(rpls[0]) // 2:03d} {rpls[0]}"
+        # (only with the gateway's id known: before its own echo an unidentified gateway cannot tell that a reply addressed to
+        #  18:123456 is meant for it - ignoring it then is the conservative choice, and the retransmission recovers)
+        if active and fsm.state() == "WantEcho" and fsm.inject(reply) is not None:
+            t.n += 1
+            if not fsm.res:
+                fsm.inject(wire)
+            if not fsm.res or fsm.res[0][0] != "pkt" or fsm.res[0][1].strip() != reply.strip():
+                t.bad("C06:reply-not-recognised:before-echo", f"command {frame!r}, active gateway {active}: proper reply {reply!r} arriving before the echo, then the echo -> {fsm.state()} {fsm.res}", rep)
     finally:
         fsm.close()
 
